@@ -515,10 +515,10 @@ that the merged entry takes its cursor AFTER `advance_deletes` (so all sources s
 committed sources are already advanced to the target, the `contains_all` staleness rule and
 the reconciliation in `end_merge` are exactly what the invariant (`Proofs/MergeInv.lean`, `Inv`,
 `RunInv`) needs to go through every step. -/
-theorem C04_merge_invisible_all_traces (evs : List Ev) :
+theorem C04_merge_invisible_all_traces (evs : List Ev) (hok : OkTrace Sys.init evs) :
     (pubDocs (Sys.init.run evs).st).Perm (Abs.init.run evs).pub ∧
     (pendDocs (Sys.init.run evs).st).Perm (Abs.init.run evs).pend :=
-  (run_all evs Sys.init Abs.init inv_init rel_init).2
+  (run_all evs Sys.init Abs.init inv_init rel_init hok).2
 
 /-- The same theorem about the machine the DRIVER executes (`runG`), whose behaviour at the four
 places the seeded changes touched is selected by guards extracted from the current source
@@ -526,19 +526,19 @@ places the seeded changes touched is selected by guards extracted from the curre
 by register, `end_merge` cancelled unless one register holds ALL sources, reconciliation before
 the swap. While the guards hold, `runG = run`; when one flips, the equality lemmas no longer
 compile (this theorem is reported broken) and the executable model follows the changed code. -/
-theorem C04_merge_invisible_all_traces_extracted (evs : List Ev) :
+theorem C04_merge_invisible_all_traces_extracted (evs : List Ev) (hok : OkTrace Sys.init evs) :
     (pubDocs (Sys.init.runG evs).st).Perm (Abs.init.run evs).pub ∧
     (pendDocs (Sys.init.runG evs).st).Perm (Abs.init.run evs).pend := by
   rw [runG_eq]
-  exact C04_merge_invisible_all_traces evs
+  exact C04_merge_invisible_all_traces evs hok
 
 example : Gen.MERGE_CURSOR_AFTER_ADVANCE = 1 ∧ Gen.MERGE_TARGET_BY_REGISTER = 1
     ∧ Gen.END_MERGE_REQUIRES_ALL_SOURCES = 1 ∧ Gen.END_MERGE_RECONCILES = 1 := by decide
 
 /-- in terms of the ids a searcher sees (`publishedUids` is what the driver prints) -/
-theorem C04_published_uids_all_traces (evs : List Ev) :
+theorem C04_published_uids_all_traces (evs : List Ev) (hok : OkTrace Sys.init evs) :
     (publishedUids (Sys.init.run evs).st).Perm ((Abs.init.run evs).pub.map (·.uid)) := by
-  have h := (C04_merge_invisible_all_traces evs).1
+  have h := (C04_merge_invisible_all_traces evs hok).1
   have e : publishedUids (Sys.init.run evs).st = (pubDocs (Sys.init.run evs).st).map (·.uid) := by
     simp only [publishedUids, pubDocs, List.map_flatten, List.map_map]
     rfl
@@ -568,10 +568,48 @@ the next commit would publish are those of the sequential replay. This is where 
 shared a source with it has lost that source from its register and will be cancelled
 (`runInv_after_other_end`), while merges over disjoint sources are untouched. The machine is the
 guard-selected one the driver executes (`stepG` / `endMergeG`). -/
-theorem C04_merge_invisible_concurrent_merges (evs : List EvM) :
+theorem C04_merge_invisible_concurrent_merges (evs : List EvM) (hok : OkTraceM SysM.init evs) :
     (pubDocs (SysM.init.run evs).st).Perm (Abs.init.run (evs.map EvM.toEv)).pub ∧
     (pendDocs (SysM.init.run evs).st).Perm (Abs.init.run (evs.map EvM.toEv)).pend :=
-  (runM_all evs SysM.init Abs.init invM_init rel_init).2
+  (runM_all evs SysM.init Abs.init invM_init rel_init hok).2
+
+/-- EXPLICIT MERGES are events too (`startMergeExplicit`: target = commit opstamp for either
+register, as `make_merge_operation` computes it). The only side condition of the all-sequences
+theorems is `OkTrace(M)`: whenever an explicit merge of UNCOMMITTED segments is issued, its sources
+sit at one delete-cursor position. Sequences without explicit merges — and explicit merges of
+committed segments — need nothing: -/
+theorem C04_merge_invisible_policy_only (evs : List EvM) (h : evs.all noExplicitM = true) :
+    (pubDocs (SysM.init.run evs).st).Perm (Abs.init.run (evs.map EvM.toEv)).pub ∧
+    (pendDocs (SysM.init.run evs).st).Perm (Abs.init.run (evs.map EvM.toEv)).pend :=
+  C04_merge_invisible_concurrent_merges evs (okTraceM_of_noExplicit evs _ h)
+
+/-- … and the side condition cannot be dropped: the recorded finding
+`C04:explicit-merge-uncommitted-first-cursor` as an event sequence of the machine. Doc 10 (key 1)
+is flushed, key 1 is deleted, doc 20 (key 1) is flushed, both uncommitted segments are merged
+explicitly, commit: the replay publishes `[20]`, the machine (like the real writer) nothing. -/
+theorem C04_explicit_uncommitted_trace_counterexample :
+    let evs : List Ev := [.addSeg [⟨10, [1]⟩], .delete 1, .addSeg [⟨20, [1]⟩],
+                          .startMergeExplicit [0, 1], .endMerge, .commit]
+    publishedUids (Sys.init.run evs).st = [] ∧ (Abs.init.run evs).pub.map (·.uid) = [20] ∧
+    ¬ OkTrace Sys.init evs := by
+  refine ⟨by decide, by decide, ?_⟩
+  intro h
+  obtain ⟨_, _, _, h4, _⟩ := h
+  obtain ⟨c0, hc0⟩ := h4 rfl (by decide) (by decide)
+  have h0 := hc0 ⟨0, [⟨10, [1]⟩], [true], 0⟩ (by decide)
+  have h1 := hc0 ⟨1, [⟨20, [1]⟩], [true], 1⟩ (by decide)
+  have e0 : (advance [⟨1, 1⟩] ⟨0, [⟨10, [1]⟩], [true], 0⟩ 0).cursor = 0 := by decide
+  have e1 : (advance [⟨1, 1⟩] ⟨1, [⟨20, [1]⟩], [true], 1⟩ 0).cursor = 1 := by decide
+  have h0' : (0 : Nat) = c0 := e0.symm.trans h0
+  have h1' : (1 : Nat) = c0 := e1.symm.trans h1
+  omega
+
+/-- an explicit merge of uncommitted segments flushed with no delete in between is covered -/
+example : OkTrace Sys.init [.addSeg [⟨10, [1]⟩], .addSeg [⟨20, [1]⟩], .delete 1,
+    .startMergeExplicit [0, 1], .endMerge, .commit] := by
+  refine ⟨trivial, trivial, trivial, ?_, trivial, trivial, trivial⟩
+  intro _ _ _
+  exact ⟨0, by decide⟩
 
 /-- A STALE MERGE IS NEVER PUBLISHED (any number of merges in flight, any history): when the
 i-th running merge ends and some source of it is no longer registered — not ALL of its sources
@@ -608,6 +646,29 @@ theorem C04_first_source_only_counterexample :
     publishedUids (endMergeFirstOnly (endMerge st r2) r1) = [11, 12, 10, 11] := by
   decide
 
+/-- `remove_empty_segments` (run whenever meta.json is written) is an event of both machines
+(`Ev.removeEmpty`), so the all-sequences theorems cover it: committed segments without a live
+document may leave the register and meta.json at any point. By itself the step changes neither
+what a searcher sees nor what the next commit publishes; its only effect is that a running merge
+with such a segment among its sources becomes stale (and is then cancelled, see the trace below). -/
+theorem C04_remove_empty_invisible (st : State) :
+    pubDocs (removeEmpty st) = pubDocs st ∧ pendDocs (removeEmpty st) = pendDocs st := by
+  constructor
+  · simp only [pubDocs, removeEmpty]
+    exact flatten_filter_nonEmpty _ liveDocsOf (fun e _ h => nonEmpty_false_live e h)
+  · simp only [pendDocs, removeEmpty, List.map_append, List.flatten_append]
+    rw [flatten_filter_nonEmpty _ _ (fun e _ h => docsAll_nil_of_live_nil _ e (nonEmpty_false_live e h))]
+
+/-- a merge of segments 0 and 1 is running; a committed delete empties segment 1, which is then
+removed; the merge finds a source missing and is cancelled; documents 10 and 12 stay published -/
+def exTraceRE : List EvM :=
+  [.addSeg [⟨10, [1]⟩], .commit, .addSeg [⟨11, [2]⟩], .commit, .addSeg [⟨12, [3]⟩], .commit,
+   .startMerge [0, 1], .delete 2, .commit, .removeEmpty, .endMerge 0]
+
+example : (SysM.init.run (exTraceRE.take 10)).st.committed.map (·.segId) = [2, 0] := by decide
+example : (SysM.init.run exTraceRE).st.committed.map (·.segId) = [2, 0]
+    ∧ publishedUids (SysM.init.run exTraceRE).st = [12, 10] := by decide
+
 /-- three committed segments; two merges that share segment 1 run at once, a delete is committed
 meanwhile; the first to end is swapped in (with reconciliation), the second finds a source
 missing and is cancelled; a third merge of uncommitted segments overlaps a fourth -/
@@ -617,6 +678,7 @@ def exTraceM : List EvM :=
    .addSeg [⟨13, [3]⟩], .addSeg [⟨14, [3]⟩], .addSeg [⟨15, [4]⟩],
    .startMerge [5, 6], .startMerge [6, 7], .delete 3, .endMerge 0, .endMerge 0, .commit]
 
+example : OkTraceM SysM.init exTraceM := okTraceM_of_noExplicit exTraceM _ (by decide)
 example : publishedUids (SysM.init.run exTraceM).st = [15, 11] := by decide
 example : (SysM.init.run (exTraceM.take 11)).st.committed.map (·.segId) = [0, 4] := by decide
 example : (SysM.init.run (exTraceM.take 12)).st.committed.map (·.segId) = [0, 4] := by decide
@@ -631,6 +693,7 @@ def exTrace : List Ev :=
    .addSeg [⟨14, [3]⟩], .addSeg [⟨15, [3]⟩], .startMerge [4, 5], .delete 3, .rollback, .endMerge,
    .addSeg [⟨16, [2]⟩], .delete 2, .commit]
 
+example : OkTrace Sys.init exTrace := okTrace_of_noExplicit exTrace _ (by decide)
 example : publishedUids (Sys.init.run exTrace).st = [13] := by decide
 example : publishedUids (Sys.init.run (exTrace.take 9)).st = [13, 11] := by decide
 example : (Abs.init.run exTrace).pub.map (·.uid) = [13] := by decide
